@@ -199,6 +199,24 @@ func (f *formatter) FormatSchema(schema *ast.Schema) {
 
 	f.FormatCommentGroup(schema.Comment)
 
+	// Without a schema definition the loader takes the types named Query, Mutation and
+	// Subscription as the root operation types. The definition is therefore needed whenever
+	// that would not give back this schema's roots: a root with another name, or a type that
+	// has one of the default names without being that root. When it is written it has to name
+	// every root, not only the unusual ones.
+	isDefaultRoot := func(root *ast.Definition, name string) bool {
+		if root == nil {
+			return schema.Types[name] == nil
+		}
+		return root.Name == name
+	}
+	needSchema := !isDefaultRoot(schema.Query, "Query") ||
+		!isDefaultRoot(schema.Mutation, "Mutation") ||
+		!isDefaultRoot(schema.Subscription, "Subscription")
+	if schema.Query == nil && schema.Mutation == nil && schema.Subscription == nil {
+		needSchema = false // a schema definition without operation types cannot be written
+	}
+
 	var inSchema bool
 	startSchema := func() {
 		if !inSchema {
@@ -212,17 +230,17 @@ func (f *formatter) FormatSchema(schema *ast.Schema) {
 			f.IncrementIndent()
 		}
 	}
-	if schema.Query != nil && schema.Query.Name != "Query" {
+	if schema.Query != nil && needSchema {
 		startSchema()
 		f.WriteWord("query").NoPadding().WriteString(":").NeedPadding()
 		f.WriteWord(schema.Query.Name).WriteNewline()
 	}
-	if schema.Mutation != nil && schema.Mutation.Name != "Mutation" {
+	if schema.Mutation != nil && needSchema {
 		startSchema()
 		f.WriteWord("mutation").NoPadding().WriteString(":").NeedPadding()
 		f.WriteWord(schema.Mutation.Name).WriteNewline()
 	}
-	if schema.Subscription != nil && schema.Subscription.Name != "Subscription" {
+	if schema.Subscription != nil && needSchema {
 		startSchema()
 		f.WriteWord("subscription").NoPadding().WriteString(":").NeedPadding()
 		f.WriteWord(schema.Subscription.Name).WriteNewline()
